@@ -169,7 +169,7 @@ def main():
         for pr in progs:
             f.write(json.dumps(pr) + "\n")
     pr = subprocess.run(["timeout", "1200", abin, pfile, ofile], capture_output=True, text=True)
-    outs = [json.loads(l) for l in open(ofile)] if os.path.exists(ofile) else []
+    outs = vlib.read_ndjson(ofile)
     if pr.returncode != 0:
         last = outs[-1] if outs else {}
         rep.violation("array-crash", {"program": progs[last.get("prog", 1) - 1], "stderr": pr.stderr[-300:]},
@@ -211,7 +211,7 @@ def main():
         for pr1 in pw:
             f.write(json.dumps(pr1) + "\n")
     pr = subprocess.run(["timeout", "1200", pbin, pfile, ofile], capture_output=True, text=True)
-    outs = [json.loads(l) for l in open(ofile)] if os.path.exists(ofile) else []
+    outs = vlib.read_ndjson(ofile)
     if pr.returncode != 0:
         rep.violation("ptr-crash", {"stderr": pr.stderr[-300:]}, "pointer-wrapper harness died (exit %s)" % pr.returncode)
     np = 0
